@@ -674,6 +674,34 @@ impl ChainBox {
 	pub fn close(&mut self) {
 		self.chain = None;
 	}
+
+	/// Reopen; a failure is classified as narrowly as possible. `nrd_on_best_chain`:
+	/// the best chain carries NRD kernels (so the NRD kernel index is rebuilt at start-up).
+	pub fn reopen_classified(&mut self, nrd_on_best_chain: bool) -> Result<(), Fail> {
+		let (head, hhead) = (self.c().head().ok(), self.c().header_head().ok());
+		match self.reopen() {
+			Ok(()) => Ok(()),
+			Err(e) => {
+				let diverged = match (&head, &hhead) {
+					(Some(h), Some(hh)) => h.last_block_h != hh.last_block_h,
+					_ => false,
+				};
+				if diverged && nrd_on_best_chain && e.contains("get header hash by height") {
+					Err(Fail::new(
+						"reopen-failed:nrd-index-rebuilt-along-header-chain-fork",
+						format!(
+							"{} — body head {:?} and header head {:?} are on different forks and the best chain carries NRD kernels: the NRD kernel index is rebuilt at start-up by walking the HEADER chain by height (verify_kernel_pos_index), which runs out of headers when the header-chain fork commits to a smaller kernel MMR",
+							e,
+							head.map(|h| (h.height, h.last_block_h)),
+							hhead.map(|h| (h.height, h.last_block_h))
+						),
+					))
+				} else {
+					Err(Fail::new("reopen-failed", e))
+				}
+			}
+		}
+	}
 }
 
 impl Drop for ChainBox {
